@@ -8,6 +8,7 @@ import SkNet.Lemmas.Kinds
 import SkNet.Lemmas.TerminateSeen
 import SkNet.Lemmas.TerminateLouvain
 import SkNet.Lemmas.ModularityFit
+import SkNet.Lemmas.KernelsHeap
 
 namespace SkNet.C17
 open SkNet SkNet.IR
@@ -175,5 +176,32 @@ theorem optimize_core_negative_tol_diverges (g : Modularity.Graph Rat) (res tol 
   unfold Modularity.optimizeCore
   rw [Terminate.coreLoop_negative_tol_diverges g res tol htol st hfix fuel]
   rfl
+
+/-! ## 3. `MinHeap` and `compute_core`: in bounds and terminating, with the capacity of the vectors modelled -/
+
+/-- **inbounds_core.**  Checked model of `minheap.pyx` + `core.pyx` (`SkNet/Model/KernelsHeap.lean`: every
+    `vector`/memoryview access fails outside the *size* of the array, as under `-D_GLIBCXX_ASSERTIONS` /
+    `boundscheck(True)`).  On every CSR structure with `n + 1` row pointers, rows ending inside `indices` and
+    column indices `< n` — symmetric or not, sorted or not, with duplicates or self-loops — `compute_core`
+    (with the repaired `__cinit__`, `resize(n)`) never leaves an array (`insert_key` writes at `size < n`, the
+    sift loops stay below `size`, `pos[val[·]]` and `degrees[indices[·]]` are node-indexed), the recursion of
+    `min_heapify` ends within the height budget, the `while not mh.empty()` loop within `n` rounds; and the result
+    is the result of the unchecked model of C11 (so C11's `core_exact` speaks about the same values). -/
+theorem inbounds_core (indptr indices : List Nat) (n : Nat) (hc : KHeap.CsrOK indptr indices n) :
+    ∃ labels : List Int, KHeap.computeCore? true indptr indices = .ok labels ∧
+      Topology.computeCore indptr indices = some labels ∧ labels.length = n :=
+  KHeap.computeCore?_ok hc
+
+/-- non-vacuity: a directed, unsorted structure with a self-loop and a sink (4 nodes, 6 entries) -/
+example : KHeap.CsrOK [0, 3, 4, 6, 6] [2, 0, 1, 3, 3, 0] 4 ∧
+    KHeap.computeCore? true [0, 3, 4, 6, 6] [2, 0, 1, 3, 3, 0] = .ok [2, 1, 2, 0] := by
+  refine ⟨⟨by decide, by decide, by decide⟩, by decide +kernel⟩
+
+/-- **The pinned `__cinit__` (`reserve(n)` only) is out of bounds on every non-empty graph** (defect F19): the
+    vectors have size 0, the first `insert_key` writes `val[0]` outside it.  Witness: the path on 4 nodes. -/
+theorem minheap_reserve_out_of_bounds :
+    KHeap.computeCore? false [0, 1, 3, 5, 6] [1, 0, 2, 1, 3, 2] = .error .oob ∧
+    KHeap.computeCore? true [0, 1, 3, 5, 6] [1, 0, 2, 1, 3, 2] = .ok [1, 1, 1, 1] := by
+  constructor <;> decide +kernel
 
 end SkNet.C17
